@@ -195,6 +195,12 @@ impl LCfg {
             _ => None,
         }
     }
+    pub fn set_act(&mut self, a: Act) {
+        match self {
+            LCfg::Dense { act, .. } | LCfg::Conv { act, .. } | LCfg::Deconv { act, .. } => *act = a,
+            _ => {}
+        }
+    }
     pub fn set_dropout(&mut self, d: Option<f32>) {
         match self {
             LCfg::Dense { dropout, .. } | LCfg::Conv { dropout, .. } | LCfg::Deconv { dropout, .. } => *dropout = d,
